@@ -53,7 +53,40 @@ def efc_dense(lib, m, d):
   return J[:nefc * nv].reshape(nefc, nv).copy()
 
 
-def model_strategy(quick):
+@st.composite
+def model_strategy(draw, quick):
+  gm = draw(_base_strategy(quick))
+  # reach: loop closures inside one kinematic tree (connect between a body and its parent / sibling, sharing moving
+  # ancestor dofs), evaluated away from the constraint manifold, in both Jacobian storage modes
+  import xml.etree.ElementTree as ET
+  root = ET.fromstring(gm.xml)
+  pairs = []
+
+  def rec(e, moving_above):
+    kids = e.findall('body')
+    for k in kids:
+      mv = moving_above or k.find('joint') is not None
+      if moving_above and e.tag == 'body':
+        pairs.append((k.get('name'), e.get('name')))
+      sub = k.findall('body')
+      if mv and len(sub) >= 2:
+        pairs.append((sub[0].get('name'), sub[1].get('name')))
+      rec(k, mv)
+  rec(root.find('worldbody'), False)
+  if pairs and draw(st.integers(0, 1)) == 0:
+    b1, b2 = draw(st.sampled_from(pairs))
+    eq = root.find('equality')
+    if eq is None:
+      eq = ET.SubElement(root, 'equality')
+    ET.SubElement(eq, 'connect', name='loop', body1=b1, body2=b2, anchor=mg.fmt([draw(mg.num(-0.2, 0.2)) for _ in range(3)]))
+    opt = root.find('option')
+    opt.set('jacobian', draw(st.sampled_from(['sparse', 'sparse', 'dense'])))
+    gm.xml = ET.tostring(root, encoding='unicode')
+    gm.info['labels'] = sorted(set(gm.info['labels']) | {'same-tree-connect'})
+  return gm
+
+
+def _base_strategy(quick):
   return gs.smooth_models(max_bodies=5 if quick else 10, max_joints=3, actuators=False, tendons=True, equalities=True,
                           cameras=True, gravcomp=False, poly=False, actuator_inertia=False,
                           joint_kwargs=dict(frictionloss=False),
@@ -147,7 +180,7 @@ def main(ck):
     q0 = np.array(d.qpos)
     v0 = np.array(d.qvel)
     k = kin.fk(S, q0, np.array(d.mocap_pos), np.array(d.mocap_quat))
-    labels = gs.brief(gm.labels(), ('tendon:',)) + gs.classify(lib, m)
+    labels = gs.brief(gm.labels(), ('tendon:', 'same-tree')) + gs.classify(lib, m)
 
     # ---------------- (a) frames
     def frames(dd):
